@@ -1161,17 +1161,21 @@ def LmChainAt (text : List Nat) : List (List LmAlt) → Nat → Prop
   | alts :: rest, lb => ∃ c alt, lb ≤ c ∧ alt ∈ alts ∧ (lmAltMatch text c alt).isSome = true ∧
       LmChainAt text rest (c + alt.minWidth)
 
-/-- the fact `findRequiredLandmarkChainLeftToRight` consumes.  At every successful attempt position `p`:
-    a run of leading-loop characters `[p, a)`, then a run `[a, c)` of characters that are leading whitespace
-    of some alternative of the first landmark, then an alternative of the first landmark with its core at
-    `c` (as `requiredLandmarkAlternativeMatch` tests it), then every later landmark in order, each core
-    starting no earlier than the previous core's start plus the SHORTEST width of the alternative used -/
+/-- the landmark chain is present from position `p`: a run of leading-loop characters `[p, a)`, then a run
+    `[a, c)` of characters that are leading whitespace of some alternative of the first landmark, then an
+    alternative of the first landmark with its core at `c` (as `requiredLandmarkAlternativeMatch` tests it),
+    then every later landmark in order, each core starting no earlier than the previous core's start plus
+    the SHORTEST width of the alternative used -/
+def LandmarkAt (S : Nat → Bool) (first : List LmAlt) (rest : List (List LmAlt)) (text : List Nat) (p : Nat) : Prop :=
+  ∃ a c alt, p ≤ a ∧ a ≤ c ∧ (∀ j, p ≤ j → j < a → memAt S text j = true) ∧
+    (∀ j, a ≤ j → j < c → memAt (lmLeadingWs first) text j = true) ∧
+    alt ∈ first ∧ (lmAltMatch text c alt).isSome = true ∧ LmChainAt text rest (c + alt.minWidth)
+
+/-- the fact `findRequiredLandmarkChainLeftToRight` consumes: the chain is present from every successful
+    attempt position -/
 def LandmarkFact (S : Nat → Bool) (first : List LmAlt) (rest : List (List LmAlt)) (text : List Nat)
     (attempt : Nat → Option (Nat × Nat)) : Prop :=
-  ∀ p, p ≤ text.length → attempt p ≠ none →
-    ∃ a c alt, p ≤ a ∧ a ≤ c ∧ (∀ j, p ≤ j → j < a → memAt S text j = true) ∧
-      (∀ j, a ≤ j → j < c → memAt (lmLeadingWs first) text j = true) ∧
-      alt ∈ first ∧ (lmAltMatch text c alt).isSome = true ∧ LmChainAt text rest (c + alt.minWidth)
+  ∀ p, p ≤ text.length → attempt p ≠ none → LandmarkAt S first rest text p
 
 theorem runOf_le (S : Nat → Bool) (text : List Nat) (start maxRepeat : Nat) : ∀ (fuel e : Nat), e ≤ text.length →
     runOf S text start maxRepeat fuel e ≤ text.length := by
